@@ -569,6 +569,31 @@ Definition start_failure_inert_b (x : ostep) : bool :=
   (is_nil (deletes (o_eff o)) && list_eqb cmd_eqb (sn_cmds (o_snap o)) (sn_cmds pre) &&
    list_eqb Bool.eqb (marks (o_snap o)) (marks pre)).
 
+Definition opt_nat_eqb (a b : option nat) : bool :=
+  match a, b with None, None => true | Some x, Some y => x =? y | _, _ => false end.
+
+(* (3b') a StartCommand that fails changes no node's queue membership; one that is REJECTED because a candidate is
+   already the subject of an in-flight command changes nothing at all: no API effect, every taint, condition, mark
+   and queue entry - in particular those of the in-flight command - as before *)
+Definition taints (sn : snap) : list bool := map (fun x => n_taint (fst (fst x))) (sn_nodes sn).
+Definition conds (sn : snap) : list bool := map (fun x => n_cond (fst (fst x))) (sn_nodes sn).
+Definition owners (sn : snap) : list (option nat) := map snd (sn_nodes sn).
+Definition is_busy (r : ret) : bool := match r with ErrBusy => true | _ => false end.
+
+Definition rejected_start_inert (x : ostep) : Prop :=
+  let '(pre, _, o) := x in
+  (is_start_error (o_ret o) = true -> owners (o_snap o) = owners pre) /\
+  (o_ret o = ErrBusy ->
+     o_eff o = [] /\ taints (o_snap o) = taints pre /\ conds (o_snap o) = conds pre /\
+     marks (o_snap o) = marks pre /\ sn_cmds (o_snap o) = sn_cmds pre).
+
+Definition rejected_start_inert_b (x : ostep) : bool :=
+  let '(pre, _, o) := x in
+  (negb (is_start_error (o_ret o)) || list_eqb opt_nat_eqb (owners (o_snap o)) (owners pre)) &&
+  (negb (is_busy (o_ret o)) ||
+   (is_nil (o_eff o) && list_eqb Bool.eqb (taints (o_snap o)) (taints pre) && list_eqb Bool.eqb (conds (o_snap o)) (conds pre) &&
+    list_eqb Bool.eqb (marks (o_snap o)) (marks pre) && list_eqb cmd_eqb (sn_cmds (o_snap o)) (sn_cmds pre))).
+
 Definition clean_pass (op : op) (r : ret) : bool :=
   match op, r with Cleanup [] [], COk => true | _, _ => false end.
 
@@ -602,8 +627,6 @@ Definition one_cmd_per_node (x : ostep) : Prop :=
      sn_owner (o_snap o) n = option_map c_id (find (holds_node n) (sn_cmds (o_snap o)))) /\
   (o_ret o = Started -> forall n, In n (start_cands op) -> sn_owner pre n = None).
 
-Definition opt_nat_eqb (a b : option nat) : bool :=
-  match a, b with None, None => true | Some x, Some y => x =? y | _, _ => false end.
 
 Definition one_cmd_per_node_b (x : ostep) : bool :=
   let '(pre, op, o) := x in
